@@ -94,14 +94,23 @@ fn content_type(g: &mut G, right: &str, other: &str) -> (Vec<(String, Vec<u8>)>,
 }
 
 fn body(g: &mut G) -> (Vec<Vec<u8>>, Vec<&'static str>, String) {
-    if g.big && g.r.chance(1, 12) {
+    body2(g, false)
+}
+
+fn body2(g: &mut G, force_big: bool) -> (Vec<Vec<u8>>, Vec<&'static str>, String) {
+    if force_big || (g.big && g.r.chance(1, 12)) {
         // around the limit; content is run-length friendly
-        match g.r.below(5) {
+        match g.r.below(8) {
             0 => (vec![vec![7u8; MAX - 1]], vec![], "limit-1".into()),
             1 => (vec![vec![7u8; MAX]], vec![], "limit".into()),
             2 => (vec![vec![7u8; MAX + 1]], vec!["toolarge"], "limit+1".into()),
             3 => (vec![vec![1u8; MAX / 2], vec![], vec![2u8; MAX - MAX / 2]], vec![], "limit-2chunks".into()),
-            _ => (vec![vec![1u8; MAX / 2], vec![2u8; MAX / 2], vec![3u8; 1]], vec!["toolarge"], "limit+1-3chunks".into()),
+            4 => (vec![vec![1u8; MAX / 2], vec![2u8; MAX / 2], vec![3u8; 1]], vec!["toolarge"], "limit+1-3chunks".into()),
+            // the LAST chunk is the one that crosses the limit
+            5 => (vec![vec![1u8; MAX], vec![3u8; 1]], vec!["toolarge"], "limit+1-lastchunk".into()),
+            // ... and the body goes on after crossing it
+            6 => (vec![vec![1u8; MAX - 5], vec![2u8; 9], vec![3u8; 4]], vec!["toolarge"], "limit+8-goeson".into()),
+            _ => (vec![vec![1u8; MAX - 3], vec![2u8; 3], vec![]], vec![], "limit-exact-then-empty".into()),
         }
     } else {
         match g.r.below(10) {
@@ -176,7 +185,9 @@ pub fn main(args: &Args) -> i32 {
             let unlisted: Vec<Uuid> = match &allow { None => vec![], Some(v) => clients.iter().filter(|c| !v.contains(c)).cloned().collect() };
             for qi in 0..per {
                 let mut g = G { r: &mut r, listed: listed.clone(), unlisted: unlisted.clone(), allow: allow.clone(), big };
-                let route = if only_wf { g.r.below(4) } else { g.r.weighted(&[28, 22, 22, 14, 5, 9]) };
+                let bigcase = big && g.r.chance(2, 3);
+                let only_wf = only_wf || bigcase;
+                let route = if bigcase { 2 * g.r.below(2) } else if only_wf { g.r.below(4) } else { g.r.weighted(&[28, 22, 22, 14, 5, 9]) };
                 let right_method = ["POST", "GET", "POST", "GET", "GET", "GET"][route];
                 let mut defects: Vec<&'static str> = vec![];
                 let method = if only_wf || g.r.chance(90, 100) { right_method.to_string() } else {
@@ -195,7 +206,7 @@ pub fn main(args: &Args) -> i32 {
                         let (seg, pdef, pform) = if only_wf { (format!("/{arg}"), vec![], "hyphenated") } else { path_id(&mut g, arg) };
                         let (right, other) = if route == 0 { (HS_CT, SNAP_CT) } else { (SNAP_CT, HS_CT) };
                         let (ct, tdef, tform) = if only_wf { (vec![("content-type".to_string(), right.as_bytes().to_vec())], vec![], "exact") } else { content_type(&mut g, right, other) };
-                        let (b, bdef, bform) = if only_wf { (vec![PayloadSpec::small(g.r).bytes()], vec![], "small".to_string()) } else { body(&mut g) };
+                        let (b, bdef, bform) = if bigcase { body2(&mut g, true) } else if only_wf { (vec![PayloadSpec::small(g.r).bytes()], vec![], "small".to_string()) } else { body(&mut g) };
                         defects.extend(pdef);
                         if !defects.contains(&"method") {
                             defects.extend(tdef);
@@ -231,6 +242,11 @@ pub fn main(args: &Args) -> i32 {
                         (g.r.pick(&["/v2/nothing", "//", "/v1", "/v1/client", "/v1/client/add-version", "/index.html", "/v1/client/get-child-version/"]).to_string(), vec![])
                     }
                 };
+                if !bigcase && g.r.chance(1, 9) {
+                    let v = *g.r.pick(&["104857601", "104857600", "0", "18446744073709551615", "7", "abc"]);
+                    hs.push(("content-length".to_string(), v.as_bytes().to_vec()));
+                    forms.push_str(&format!(",cl={v}"));
+                }
                 let spec = ReqSpec { method: method.clone(), path, headers: hs, chunks };
                 let dstr = if defects.is_empty() { "-".to_string() } else { defects.join("+") };
                 out.line(&format!("# i={qi} op=http route={} defects={dstr} form={forms} class={}", ["av", "gcv", "as", "gs", "index", "unknown"][route], idref.class()));
